@@ -83,8 +83,63 @@ func runC01(p *core.Prog, r *core.Report) {
 	r.Rule("C01-R3", "escape table: evaluated over all 128 ASCII bytes and every Unicode scalar value, a character is passed through raw only if JSON allows it inside a string, and otherwise is replaced by exactly one legal escape denoting it (invalid UTF-8 → \\ufffd)", 3)
 	r.Rule("C01-R4", "error containment: every path of the marshal helper appends something (an encoding error is rendered as an escaped string, the value position never stays empty)", 1)
 	r.Rule("C01-R5", "source location: a function that captures the caller with runtime.Callers(2+d, …) is reached through exactly d frames of the package — d-1 private levels nobody outside can enter, then entry points that are not themselves called from inside the logger package (fixed stack depth)", 1)
+	r.Rule("C01-R6", "the caller's attributes are read-only: no function of the logger package stores through a pointer parameter to slog.Attr / slog.Value / slog.Record or into an element of a []slog.Attr it was given or obtained from Value.Group() (resolving a LogValuer in place would freeze a deferred value for every later record)", 0)
 	r.NotDecided = append(r.NotDecided, "that decoded values equal the inputs (round-trip of numbers/time through strconv/time; U+FFFD substitution result)", "attribute order beyond: emitted in iteration order of the same loops")
 	r.Trusted = append(r.Trusted, "strconv.AppendInt/Uint/Bool output is a JSON number/literal", "Time.AppendFormat(RFC3339Nano) emits only digits, '-', ':', '.', 'T', 'Z', '+'", "encoding/json Encoder.Encode writes one valid JSON value followed by '\\n'", "slog.Value.Resolve never returns a LogValuer kind")
+
+	// ---- R6: attribute memory of the caller is never written
+	{
+		isAttrMem := func(t types.Type) bool {
+			if pt, ok := t.Underlying().(*types.Pointer); ok {
+				t = pt.Elem()
+			} else if st, ok := t.Underlying().(*types.Slice); ok {
+				t = st.Elem()
+			} else {
+				return false
+			}
+			n, ok := t.(*types.Named)
+			return ok && n.Obj().Pkg() != nil && n.Obj().Pkg().Path() == "log/slog" && (n.Obj().Name() == "Attr" || n.Obj().Name() == "Value" || n.Obj().Name() == "Record")
+		}
+		var bad []string
+		nFn := 0
+		for _, fn := range p.PkgFuncs("logger") {
+			if fn.Blocks == nil {
+				continue
+			}
+			nFn++
+			sx.Instrs(fn, func(in ssa.Instruction) {
+				st, ok := in.(*ssa.Store)
+				if !ok {
+					return
+				}
+				a := st.Addr
+				for {
+					if fa, ok := a.(*ssa.FieldAddr); ok {
+						a = fa.X
+						continue
+					}
+					if ia, ok := a.(*ssa.IndexAddr); ok {
+						a = ia.X
+						continue
+					}
+					break
+				}
+				a = sx.Unspill(a)
+				switch x := a.(type) {
+				case *ssa.Parameter:
+					if isAttrMem(x.Type()) {
+						bad = append(bad, "store through parameter "+x.Name()+" of "+fnName(fn)+" at "+p.Pos(in.Pos()))
+					}
+				case *ssa.Call:
+					if n := sx.CalleeName(x); n == "(log/slog.Value).Group" {
+						bad = append(bad, "store into the members of a group value in "+fnName(fn)+" at "+p.Pos(in.Pos()))
+					}
+				}
+			})
+		}
+		sort.Strings(bad)
+		r.Check(len(bad) == 0, "C01-R6", "attribute memory handed to the logger is never written", "-", fmt.Sprintf("%d functions, none stores through a *slog.Attr / *slog.Value / *slog.Record parameter or into group members", nFn), strings.Join(bad, "; ")+": the value the caller keeps (a group attribute it logs again, a deferred LogValuer) is changed by logging it — later records show what the first one resolved")
+	}
 
 	h := handlerNamed(p, "json")
 	if h == nil {
